@@ -201,6 +201,38 @@ def _run(env):
             ctx.case('mut-key', (name, pos))
             if not falsy(o): ctx.fail('mut-key', 'signature verifies under altered key material', {'op': 'mutkey', 'key': name, 'pos': pos})
 
+    # --- a verifying key (or signing subkey) that carries a revocation: whatever PGPy then says about GOOD signatures, a wrong
+    #     document, a damaged signature or another key's signature must still not verify ---
+    from .keys import get as _get
+    for name in (['ed25519', 'rsa2048'] if ctx.quick else names):
+        try:
+            kr = _get(name)
+        except Exception:
+            continue
+        doc = b'signed before the revocation'
+        sg = kr.sign(doc, created=t(9300))
+        foreign = env.key('ed25519b' if name != 'ed25519b' else 'p256').sign(doc, created=t(9301))
+        subs = [sk for sk in kr.subkeys.values() if sk.key_algorithm.can_sign and int(sk.key_algorithm) != 18]
+        so_ = outcome(lambda: subs[0].sign(doc, created=t(9302))) if subs else ('raise', None)
+        ssg = so_[1] if so_[0] == 'ok' else None
+        kr |= kr.revoke(kr, created=t(9310))
+        if subs:
+            subs[0] |= kr.revoke(subs[0], created=t(9311))
+        rpub = pgpy.PGPKey.from_blob(bytes(kr.pubkey))[0]
+        raw = bytes(sg)
+        tests = [('tampered document', lambda: bool(rpub.verify(doc + b'!', pgpy.PGPSignature.from_blob(raw)))),
+                 ('signature integer changed', lambda: bool(rpub.verify(doc, pgpy.PGPSignature.from_blob(raw[:-3] + bytes([raw[-3] ^ 0x10]) + raw[-2:])))),
+                 ("another key's signature", lambda: bool(rpub.verify(doc, foreign)))]
+        if ssg is not None:
+            sraw = bytes(ssg)
+            tests += [('tampered document under the revoked subkey', lambda: bool(rpub.verify(doc + b'!', pgpy.PGPSignature.from_blob(sraw)))),
+                      ('subkey signature integer changed', lambda: bool(rpub.verify(doc, pgpy.PGPSignature.from_blob(sraw[:-3] + bytes([sraw[-3] ^ 0x10]) + sraw[-2:]))))]
+        for what, fn in tests:
+            o = outcome_timed(2.0, fn)
+            ctx.case('revoked-key', (name, what))
+            if not falsy(o):
+                ctx.fail('revoked-key', 'under a key that carries a revocation: %s verifies' % what, {'op': 'revoked', 'key': name, 'what': what})
+
     # --- carriers: signatures inside messages and certifications inside keys ---
     k = env.key('ed25519'); pub = k.pubkey
     m = pgpy.PGPMessage.new(b'carried in a message', file=False, compression=pgpy.constants.CompressionAlgorithm.Uncompressed)
